@@ -483,6 +483,13 @@ let oracle_only_cases oc r =
       List.iter (fun src -> raw oc "oracle-only" src fixed_ctx)
         [ Printf.sprintf "{{ %s(%s) }}" f lit; Printf.sprintf "{{ %s(m) }}|{{ %s(m, o) }}" f f; Printf.sprintf "{{ %s(%s, m)|json_encode }}" f lit ])
     (names Model.reg_GetFunctions);
+  (* pattern matching with the same pattern text under both flag settings, several bodies, in both orders *)
+  List.iter (fun body ->
+    List.iter (fun (subj, form) ->
+      raw oc "oracle-only" (Printf.sprintf "{{ '%s' matches '%s' ? 'y' : 'n' }}" subj form) fixed_ctx)
+      (* the other process renders in the opposite order: there the flagged spellings come first *)
+      [ ("LEAF", "/" ^ body ^ "/"); ("leaf", "/" ^ body ^ "/"); ("Leaf", body); ("leaf", "/" ^ body ^ "/i"); ("LEAF", "/" ^ body ^ "/i") ])
+    [ "^leaf$"; "ea"; "^l.+f$"; "L" ];
   (* a hash whose values read names the same hash assigns: with / set / macro arguments evaluate every value in the
      scope outside the hash *)
   let inc2 = [ ("inc2", "[{{ title }}|{{ heading }}|{{ a }}|{{ b }}|{{ c }}]") ] in
